@@ -245,14 +245,24 @@ func vfC04QScenario(t *testing.T, plan vfC04QPlan, tr *vfh.Trace, out *vfC04QOut
 	}
 	ctx, cancel := context.WithTimeout(context.Background(), 10*time.Second)
 	defer cancel()
-	closeLnB := func() {
+	var lnMu sync.Mutex
+	lnStarted, lnDone := false, make(chan struct{})
+	closeLnB := func() { // (not sync.Once: waiting on its mutex is not durably blocked for synctest)
+		lnMu.Lock()
+		first := !lnStarted
+		lnStarted = true
+		lnMu.Unlock()
+		if !first {
+			<-lnDone
+			return
+		}
 		if lnB != nil {
 			tr.Emit("lclose_call", "why", "b")
 			lnB.Close()
 			tr.Emit("lclose_ret")
 		}
+		close(lnDone)
 	}
-	var lnBOnce sync.Once
 	var connA, connB tpt.CapableConn
 	rawSeen := map[string]bool{}
 	pn.OnSend = func(from string, n int) {
@@ -273,7 +283,7 @@ func vfC04QScenario(t *testing.T, plan vfC04QPlan, tr *vfh.Trace, out *vfC04QOut
 				out.Hit = true
 				tr.Emit("fault", "o", "q"+from, "k", n, "op", "w", "kind", plan.Kind, "stage", "quic")
 				wg.Add(1)
-				go func() { defer wg.Done(); lnBOnce.Do(closeLnB) }()
+				go func() { defer wg.Done(); closeLnB() }()
 			case "cclose":
 				mu.Lock()
 				c := connA
@@ -483,7 +493,7 @@ wait:
 		out.PktA, out.PktB = pn.Sent["a"], pn.Sent["b"]
 	}
 	close(finish)
-	lnBOnce.Do(closeLnB)
+	closeLnB()
 	if lnA != nil {
 		lnA.Close()
 	}
